@@ -1,6 +1,7 @@
 package checks
 
 import (
+	"bytes"
 	"crypto/ed25519"
 	"errors"
 	"fmt"
@@ -23,6 +24,7 @@ import (
 func init() { register("C06", runC06, replayC06) }
 
 type c06Built struct {
+	value    any // the constructed value (pointer), for the accessor history
 	entry    string
 	verify   func() error                              // library verification of the constructed value
 	bytes    func() ([]byte, error)                    // serialisation
@@ -48,7 +50,7 @@ func c06Build(fam string, s gen.Signed, aux int, form adapt.ELSKeyForm) (*c06Bui
 		if err != nil {
 			return nil, err
 		}
-		return &c06Built{"router_info.NewRouterInfo", func() error { return boolErr(v.VerifySignature()) }, v.Bytes,
+		return &c06Built{v, "router_info.NewRouterInfo", func() error { return boolErr(v.VerifySignature()) }, v.Bytes,
 			func(b []byte) (func() error, int, error) {
 				p, rem, err := router_info.ReadRouterInfo(b)
 				return func() error { return boolErr(p.VerifySignature()) }, len(rem), err
@@ -58,7 +60,7 @@ func c06Build(fam string, s gen.Signed, aux int, form adapt.ELSKeyForm) (*c06Bui
 		if err != nil {
 			return nil, err
 		}
-		return &c06Built{"lease_set.NewLeaseSet", v.Verify, v.Bytes,
+		return &c06Built{v, "lease_set.NewLeaseSet", v.Verify, v.Bytes,
 			func(b []byte) (func() error, int, error) {
 				p, err := lease_set.ReadLeaseSet(b)
 				return p.Verify, 0, err
@@ -68,7 +70,7 @@ func c06Build(fam string, s gen.Signed, aux int, form adapt.ELSKeyForm) (*c06Bui
 		if err != nil {
 			return nil, err
 		}
-		return &c06Built{"lease_set2.NewLeaseSet2", v.Verify, v.Bytes,
+		return &c06Built{v, "lease_set2.NewLeaseSet2", v.Verify, v.Bytes,
 			func(b []byte) (func() error, int, error) {
 				p, rem, err := lease_set2.ReadLeaseSet2(b)
 				return (&p).Verify, len(rem), err
@@ -78,7 +80,7 @@ func c06Build(fam string, s gen.Signed, aux int, form adapt.ELSKeyForm) (*c06Bui
 		if err != nil {
 			return nil, err
 		}
-		return &c06Built{fmt.Sprintf("encrypted_leaseset.NewEncryptedLeaseSet[keyform=%d]", form), v.Verify, v.Bytes,
+		return &c06Built{v, fmt.Sprintf("encrypted_leaseset.NewEncryptedLeaseSet[keyform=%d]", form), v.Verify, v.Bytes,
 			func(b []byte) (func() error, int, error) {
 				p, rem, err := encrypted_leaseset.ReadEncryptedLeaseSet(b)
 				return (&p).Verify, len(rem), err
@@ -167,6 +169,20 @@ func c06One(r *core.Run, fam string, s gen.Signed, aux int, desc string, vector 
 	}
 	if ok, why := refmodel.VerifyRaw(b.authKind, out); !ok {
 		fail("independent-verification-fails", "the independent verifier rejects the constructor's bytes: "+why)
+	}
+	// history: every exported query on the signed value (all non-mutating methods x the argument menu) and
+	// then the same questions again - what was signed must still be what is serialised and verified
+	if b.value != nil && verr == nil {
+		core.Guard(func() { adapt.CallMethods(b.value, true, mutatorNames, func(adapt.CallOutcome) {}) })
+		var out2 []byte
+		var e2, v2 error
+		if pan, msg := core.Guard(func() { out2, e2 = b.bytes(); v2 = b.verify() }); pan {
+			fail("panics-after-read-only-calls", msg)
+		} else if e2 != nil || !bytes.Equal(out2, out) {
+			fail("serialisation-changes-after-read-only-calls", fmt.Sprintf("after calling the value's exported read-only methods Bytes() differs from what it was (err %v, first difference at %d)", e2, firstDiff(out2, out)))
+		} else if v2 != nil && !(ecdsaID && refOK) {
+			fail("does-not-verify-after-read-only-calls", "after calling the value's exported read-only methods the signed value no longer verifies: "+errClass(v2.Error()))
+		}
 	}
 	r.Distinct([]byte(b.entry), out[:min(len(out), 900)], []byte(desc))
 }
